@@ -449,8 +449,8 @@ def check_literals(rep, work, vh, gojq, seed, quick):
     # model -> code: TLC enumerates the literal shapes
     gout, gout2 = work.path("lits.ndjson"), work.path("texts.ndjson")
     res = vc.tlc(work.dir, "NumLitGen.tla", "Gen.cfg",
-                 env={"VERIF_OUT": gout, "VERIF_OUT2": gout2, "VERIF_N": "1500" if quick else "0",
-                      "VERIF_TEXTLEN": "4" if quick else "6"},
+                 env={"VERIF_OUT": gout, "VERIF_OUT2": gout2, "VERIF_N": "1500" if quick else "8000",
+                      "VERIF_TEXTLEN": "4" if quick else "5"},
                  timeout=900, extra=["-seed", str(seed), "-noGenerateSpecTE"])
     if not res.ok() or not os.path.exists(gout) or not os.path.exists(gout2):
         raise vc.ToolError("NumLitGen failed:\n" + vc.tlc_error_text(res))
@@ -623,7 +623,7 @@ def run(tier, seed, replay):
         with cf.ThreadPoolExecutor(max_workers=1) as ex:
             mc = ex.submit(model_check, work, quick)
             t0 = time.time()
-            cases = arith_cases(r, quick, 1.0 if quick else 16.0)
+            cases = arith_cases(r, quick, 1.0 if quick else 8.0)
             counters = check_arith(rep, work, vh, cases, timeout=600 if quick else 3000)
             t1 = time.time()
             lit_counters = check_literals(rep, work, vh, gojq, seed, quick)
@@ -640,7 +640,8 @@ def run(tier, seed, replay):
                            "x 3 representations, chained; NumLitMC: every text over 9 symbols up to length 6 (thorough 7). "
                            "conformance: seeded pairs from the boundary set of the property and structured pairs at the decision points of each "
                            "fast path x every exact Go representation pair x query modes ($a op $b, .[0] op .[1], literals, add); "
-                           "TLC-enumerated literal shapes (quick: seeded subset, thorough: all) x 29 journeys through build/gojq (file and stdin); "
+                           "TLC-enumerated literal shapes (seeded subset of 1500 / 8000 of the 31460 + all integer-shaped ones) x %d journeys "
+                           "through build/gojq (file, stdin, argv); every text over 9 symbols up to length 4 / 5 through tonumber and the query parser; " % (len(LIT_MODES) + 2) +
                            "non-trivial = distinct (operator, a, b) / (mode, literal)")
         code = rep.finish()
         if code == 0 and counters.get("specerr"):
